@@ -7,7 +7,7 @@
 set -u
 if [ "${1:-}" = "--cleanup" ]; then git -C /repo worktree remove --force /tmp/wt/verify; rm -f /tmp/wt/verify-*.patch; exit 0; fi
 ONLY=0; if [ "${1:-}" = "--checks-only" ]; then ONLY=1; shift; fi
-id="$1"; src="$2"; shift 2
+id="$1"; src="$(cd "$2" && pwd)"; shift 2
 checks="${*:-C01 C02 C03 C04 C05 C06 C07 C08 C09 C10 C11 C12 C13 C14 C15 C16 C17 C18 C19 C20}"
 if [ $ONLY -eq 1 ]; then cp "$src/patch.diff" /tmp/wt/verify-$id.patch; else
 W=/tmp/wt/verify
